@@ -46,6 +46,10 @@ TraceSpec == TraceInit /\ [][TraceNext]_tvars
 
 Consecutive == ~bad
 
+\* how a violating state is printed (cfg: ALIAS): the stages that failed instead of the whole record and store list
+TAlias == [l |-> l, failedStages |-> {k \in DOMAIN chk : ~chk[k]}, failedLayout |-> {k \in DOMAIN layout : ~layout[k]},
+           nproof |-> nproof, bad |-> bad]
+
 \* every line was consumed (false exactly when an invariant stopped the run earlier)
 TraceAccepted == TLCGet("stats").diameter - 1 = Len(TraceLog)
 =============================================================================
